@@ -1,7 +1,8 @@
 import RuxModel.Drv.Common
 import RuxModel.Model.Cache
 /- driver engine `lru`: the cache model behind the line protocol -/
-namespace Rux.Drv
+namespace Rux.Drv.LruE
+open Rux.Drv
 
 def lruStep (c : Cache Bytes Nat) : List String → Cache Bytes Nat × String
   | ["new", cap] =>
@@ -32,4 +33,8 @@ def lruStep (c : Cache Bytes Nat) : List String → Cache Bytes Nat × String
 
 def lruEngine : Engine := { σ := Cache Bytes Nat, init := Cache.empty 0, step := lruStep }
 
+end Rux.Drv.LruE
+
+namespace Rux.Drv
+export LruE (lruEngine)
 end Rux.Drv
